@@ -237,7 +237,8 @@ def gen_crafted(rng, target="binary"):
     sizes = [unit * rng.choice([1, 1, 2, 3, 4]) for _ in levels]
     nan_size = unit * rng.choice([0, 0, 1, 2])
     hint = None
-    if rng.random() < 0.25:
+    if target == "binary" and rng.random() < 0.25:
+        # (binary targets only: the exact rank computations of the model are quadratic in the number of rows)
         # fine mode: a large sample in which one modality sits a hair (< 5e-4 of the rows) below or exactly at a usual
         # min_freq_mod threshold, so that any rounding of the frequencies before the comparison shows
         # (1 in 4 of these: ten times larger, one row is then less than 5e-5 of the sample - rounding to 4 decimals shows)
